@@ -8,5 +8,7 @@ git -C /repo apply /verif/seeded/$name/patch.diff || { echo "patch does not appl
 ./check $prop --tier $tier > /tmp/seedtest-$name-$prop.log 2>&1
 rc=$?
 git -C /repo checkout -- .
+# rebuild the harness against the restored tree, so that no later run uses a binary with the seeded change
+(cd /verif/harness && RUSTFLAGS="--cfg resvg_verif" cargo build --offline -q 2>/dev/null)
 grep -E "VIOLATION|^C[0-9]+ tier" /tmp/seedtest-$name-$prop.log | cut -c1-300
 echo "exit=$rc"
